@@ -28,6 +28,8 @@ impl Transport {
 			};
 			(loop_start, loop_end)
 		});
+		// an empty or inverted region can never be left by the wrap loops below
+		let loop_region = loop_region.filter(|(loop_start, loop_end)| loop_end > loop_start);
 		Self {
 			position: if reverse {
 				num_frames.saturating_sub(1).saturating_sub(start_position)
@@ -52,7 +54,9 @@ impl Transport {
 				EndPosition::Custom(end_position) => end_position.into_samples(sample_rate),
 			};
 			(loop_start, loop_end)
-		});
+		})
+		// an empty or inverted region can never be left by the wrap loops below
+		.filter(|(loop_start, loop_end)| loop_end > loop_start);
 	}
 
 	pub fn increment_position(&mut self, num_frames: usize) {
